@@ -230,6 +230,29 @@ def generate(rng, tier):
                 add([push(c), code, "55", "67", op(147), "68"])
                 add([push(c), code, op(147), "67", "56", "68", op(147)])
 
+    # 3d. call history on ONE Interpreter object: k x next(), clone(), run(), run() on the clone, run() again; State accessors;
+    #     every constructor (from_script, from_transaction, from_transaction_and_script_bits with bits that are / are not the input's script)
+    hist_scripts = ["", "51", "51+52+93", "51+93+52", "93", "51+63+52+67+53+68+54", "00+63+52+67+53+68+54", "00+64+51+63+55+68+67+56+68+57",
+                    "51+6b+52+6c+6c", "51+52+53+7b+7c+87", "51+ab+52+ab+53", "51+68+52", "51+63+52+67+53+67+54+68", "00+63+52+67+53+67+54+68",
+                    "51+6a+52", "63+68", "51+63+93+68+52", "0501", "51+69+52+69+00+69+53", "5a+5b+a3+5c+a4+8f+90", "ac", "51+51+ac", "51+ae",
+                    "r:74:20+5a+79+77", "51+r:63:8+52+r:68:8", "03010203+52+7f+7e+82", "51+b1+52", "51+50+52", "51+fe+52"]
+    for hs in hist_scripts:
+        nparts = len(hs.split("+")) if hs else 0
+        for k in sorted({0, 1, 2, 3, nparts // 2, max(0, nparts - 1), nparts, nparts + 1, nparts + 5, 40}):
+            cases.append(("interp.hist", [hs, str(k)]))
+    for t in ["_", "c00", "o81,c00,o82", "o81,i99.1.1,o82,o83,o84", "o0,i100.2.x,o82,o83,o84", "o81,o99,o82", "p0102,d76.03,o147", "o81,i99.1.x,c00,o85"]:
+        for k in (0, 1, 2, 3, 9):
+            cases.append(("interp.histbits", [t, str(k)]))
+    for u, l in [("", "51"), ("51+52", "93"), ("00+0107", "51+0109+51+ae"), ("0107+0109", "ac"), ("0107+0109", "ab+ad+51"), ("51", "63+ab+68+0141+0109+ac"),
+                 ("00", "55+ae"), ("51+63", "68"), ("", "")]:
+        for k in (0, 1, 2, 3, 4, 7):
+            cases.append(("interp.histtx", [u, l, str(k)]))
+    for u, l, t in [("51", "52", "o83,o84,o147"), ("51", "52", "_"), ("0107+0109", "ac", "p07,p09,o172"), ("0107+0109", "ac", "p07,p09,o171,o173,o81"),
+                    ("", "", "o81,o174"), ("51", "51", "o0,p0141,o81,p09,o81,o174"), ("51", "51", "c00")]:
+        for idx in (0, 1, 7):
+            for k in (0, 1, 2, 5):
+                cases.append(("interp.histtxbits", [u, l, t, str(idx), str(k)]))
+
     # 4. random programs, random byte strings
     nprog = 300 if tier == "quick" else 4000
     for i in range(nprog):
